@@ -60,6 +60,7 @@ type Obs struct {
 	OpenAtRet  int
 	Opens      int
 	Closes     int
+	Fired      []string // storage faults that fired
 }
 
 func (o *Obs) OutcomeKey() string {
@@ -183,6 +184,7 @@ func RunOnce(sc *Scenario, s Sched) *Obs {
 	obs.Mon = opmon.Take()
 	obs.OpenAtRet = st.OpenAtReturn
 	obs.Opens, obs.Closes = st.Opens, st.Closes
+	obs.Fired = st.Fired
 	return obs
 }
 
